@@ -1,4 +1,4 @@
-import Upf.Proofs.History
+import Upf.Proofs.HistBase
 import Upf.Proofs.AgentPool
 /-!
 C05 / C06 at the level of the agent: along every history the UE address pool keeps its invariant (free ++ held is a
@@ -267,58 +267,5 @@ theorem foldl_drop_poolinv (base : List Nat) (cfg : Cfg) : ∀ (ss : List Sessio
   | s :: rest, w, h => by
     rw [List.foldl_cons]
     exact foldl_drop_poolinv base cfg rest _ (inv_release base w.pool w.teid s.lseid s.pdrs h)
-
-/-- the pool invariant of C06 and "every held address is held by a stored session" after one step -/
-theorem step_pool (base : List Nat) (cfg : Cfg) (w : World) (ev : Ev) (hI : Inv cfg w) (henv : EnvOK cfg w [ev])
-    (hP : PoolInv base w.pool) (hO : Owned w) : PoolInv base (stepEv cfg w ev).pool ∧ Owned (stepEv cfg w ev) := by
-  cases ev with
-  | assoc a node =>
-    obtain ⟨rest, p1, p2⟩ := conn_sublist_perm w a hI.keys
-    refine ⟨by show PoolInv base (w.setConn a _).pool; rw [setConn_pool]; exact hP, ?_⟩
-    refine hO.congr (setConn_pool _ _ _) (fun s hs => ?_)
-    show s ∈ allSessions (w.setConn a { w.conn a with remoteNode := node })
-    unfold allSessions; rw [setConn_conns]
-    exact (p2 { w.conn a with remoteNode := node }).mem_iff.mpr (p1.mem_iff.mp hs)
-  | pfd a apps ok =>
-    cases ok
-    · exact ⟨hP, hO⟩
-    · obtain ⟨rest, p1, p2⟩ := conn_sublist_perm w a hI.keys
-      refine ⟨by show PoolInv base (w.setConn a _).pool; rw [setConn_pool]; exact hP, ?_⟩
-      refine hO.congr (setConn_pool _ _ _) (fun s hs => ?_)
-      show s ∈ allSessions (w.setConn a { w.conn a with apps := apps })
-      unfold allSessions; rw [setConn_conns]
-      exact (p2 { w.conn a with apps := apps }).mem_iff.mpr (p1.mem_iff.mp hs)
-  | est a lseid r => exact ⟨inv_establish base cfg w a lseid r hP, establish_owned cfg w a lseid r hI.keys hO⟩
-  | del a seid => exact ⟨inv_delete base cfg w a seid hP, delete_owned cfg w a seid hI hO⟩
-  | report a seid =>
-    refine ⟨?_, report_owned cfg w a seid hI hO⟩
-    show PoolInv base (reportContextNotFound cfg w a seid).pool
-    unfold reportContextNotFound
-    dsimp only
-    split
-    · exact hP
-    · rename_i s _
-      rw [setConn_pool]
-      exact inv_release base w.pool w.teid s.lseid s.pdrs hP
-  | shutdown a =>
-    refine ⟨?_, shutdown_owned cfg w a hI hO⟩
-    show PoolInv base (shutdownConn cfg w a).pool
-    unfold shutdownConn
-    exact foldl_drop_poolinv base cfg _ w hP
-  | modFar a r =>
-    show PoolInv base (modify cfg w a r).world.pool ∧ Owned (modify cfg w a r).world
-    cases hf : (w.conn a).sessions.find? (·.lseid = r.seid) with
-    | none => rw [modify_unknown cfg w a r hf]; exact ⟨hP, hO⟩
-    | some s0 =>
-      exact ⟨by rw [modify_farOnly_pool cfg w a r henv.1.1]; exact hP, modFar_owned cfg w a r s0 hI hO henv.1.1 hf (henv.1.2 s0 hf)⟩
-
-/-- **along every history**: the pool invariant of C06 holds and every held address is held by a stored session -/
-theorem pool_run (base : List Nat) (cfg : Cfg) : ∀ (evs : List Ev) (w : World), Inv cfg w → FarWf w → EnvOK cfg w evs → PoolInv base w.pool → Owned w →
-    PoolInv base (evs.foldl (stepEv cfg) w).pool ∧ Owned (evs.foldl (stepEv cfg) w)
-  | [], _, _, _, _, hP, hO => ⟨hP, hO⟩
-  | ev :: rest, w, hI, hW, henv, hP, hO => by
-    rw [List.foldl_cons]
-    have h1 := step_pool base cfg w ev hI ⟨henv.1, trivial⟩ hP hO
-    exact pool_run base cfg rest _ (step_inv cfg w ev hI hW ⟨henv.1, trivial⟩) (step_farwf cfg w ev hI hW ⟨henv.1, trivial⟩) henv.2 h1.1 h1.2
 
 end Agent
